@@ -157,6 +157,9 @@ pub enum OpKind {
     /// re-send of the k-th accepted version of this client (same parent, same bytes), as a client
     /// retrying after a lost response would do
     Resend { k: usize },
+    /// the payload of the k-th accepted version sent again with the parent of the j-th one (a stale
+    /// request that happens to carry bytes the server already holds)
+    ResendStale { k: usize, j: usize },
 }
 
 #[derive(Clone, Debug, PartialEq)]
@@ -182,6 +185,7 @@ impl Op {
                 json!({"c": self.client, "op": "Probe(GetChildVersion;AddVersion)", "parent": format!("{:?}", parent), "pay": pay.json()})
             }
             OpKind::Resend { k } => json!({"c": self.client, "op": "AddVersion(resend of accepted #k)", "k": k}),
+            OpKind::ResendStale { k, j } => json!({"c": self.client, "op": "AddVersion(payload of accepted #k, parent of accepted #j)", "k": k, "j": j}),
         }
     }
     pub fn kind_name(&self) -> &'static str {
@@ -192,6 +196,7 @@ impl Op {
             OpKind::GetSnapshot => "GetSnapshot",
             OpKind::Probe { .. } => "Probe",
             OpKind::Resend { .. } => "Resend",
+            OpKind::ResendStale { .. } => "ResendStale",
         }
     }
 }
